@@ -186,8 +186,11 @@ func c04Roundtrip(pp *paramPkg, s PShape, v *PValue) (ok bool, why string, detai
 }
 
 func runC04(ctx *Ctx) error {
-	ctx.Res.Rule = "shape space enumerated exhaustively (location x style x explode{unset,true,false} x 13 types x required x {schema,json,pass-through}); per shape and framework seeded representable values (strings built from tagged atoms: several scripts, space, every URL-reserved character except the style's own delimiters; integer extremes; floats; dates; uuids) built by the generated client, served by the generated server in-process, handler arguments compared with the caller's; plus absent optional parameters; plus in-process CORR of the Lean codec vs the pinned runtime; non-trivial = every case (distinct by shape+value)"
+	ctx.Res.Rule = "shape space enumerated exhaustively (location x style x explode{unset,true,false} x 13 types x required x {schema,json,pass-through}); per shape and framework seeded representable values (strings built from tagged atoms: several scripts, space, every URL-reserved character except the style's own delimiters; integer extremes; floats; dates; uuids) built by the generated client, served by the generated server in-process, handler arguments compared with the caller's; plus absent optional parameters; plus operations with two and three path parameters of different types whose names occur elsewhere in the path text, declared out of path order (client arguments in path order, each arriving in the argument named after it); plus in-process CORR of the Lean codec vs the pinned runtime; non-trivial = every case (distinct by shape+value)"
 	if err := corrCodec(ctx, "C04"); err != nil {
+		return err
+	}
+	if err := c04MultiPath(ctx); err != nil {
 		return err
 	}
 	shapes := allShapes()
